@@ -154,14 +154,22 @@ class ConstructPipeline(RewritePattern):
 
         # create index op
         index_args = [i_op.results[0] for i_op in index_ops if len(i_op.results) > 0]
-        index_yield = YieldOp(*index_args)
         for o in index_ops:
             o.detach()
+        index_block = Block(index_ops, arg_types=[IndexType()])
+        # a stage that uses the loop index itself gets it as a result of the index op as well,
+        # such that it follows the index of its stage
+        index_used_by_stages = any(use.operation not in index_ops for use in op.body.block.args[0].uses)
+        if index_used_by_stages:
+            index_args.append(index_block.args[0])
+        index_block.add_op(YieldOp(*index_args))
         index_op = IndexOp(
             input=op.body.block.args[0],
             result_types=[x.type for x in index_args],
-            body=Region(Block([*index_ops, index_yield], arg_types=[IndexType()])),
+            body=Region(index_block),
         )
+        if index_used_by_stages:
+            index_args[-1] = op.body.block.args[0]
         # replace uses of index with the index block arg
         index_op.input.replace_uses_with_if(index_op.body.block.args[0], lambda use: use.operation in index_ops)
 
